@@ -1450,7 +1450,9 @@ func call(n *node) {
 			}
 
 			if goroutine {
-				// Goroutine's arguments should be copied.
+				// Goroutine's function value and arguments should be copied: they are
+				// evaluated when the go statement executes.
+				bf = fixArg(bf)
 				in := make([]reflect.Value, len(values))
 				for i, v := range values {
 					value := v(f)
